@@ -34,6 +34,29 @@ VERIF = os.path.dirname(os.path.dirname(os.path.abspath(__file__)))
 
 CONTRACTS = []  # list of Contract
 BOUNDED = []  # list of Bounded
+PROTOCOLS = []  # list of Protocol (representation-invariant / effect checks)
+
+
+class Protocol:
+    """a check that generates its own named obligations (invariant preservation per
+    operation, effect inclusion per function, route tables ...).  fn(tier, seed, open_ids)
+    returns {"obligations": [{"id", "status": discharged|violated|undecided, "backend",
+    "detail", "witness", "replayed"}], "trusted": [...], "functions": [...]}"""
+
+    def __init__(self, prop, name, fn, tier="quick", note=""):
+        self.prop, self.name, self.fn, self.tier, self.note = prop, name, fn, tier, note
+
+    @property
+    def id(self):
+        return "%s/protocol/%s" % (self.prop, self.name)
+
+
+def protocol(prop, name=None, **kw):
+    def deco(fn):
+        PROTOCOLS.append(Protocol(prop, name or fn.__name__, fn, **kw))
+        return fn
+
+    return deco
 
 
 class ReplayInvalid(Exception):
